@@ -16,6 +16,7 @@
 package extractsev
 
 import (
+	"encoding/binary"
 	"encoding/hex"
 	"errors"
 	"fmt"
@@ -61,8 +62,40 @@ func FromAttestation(at *spb.Attestation) ([]byte, error) {
 	return nil, ErrNotInExtras
 }
 
+// CheckCertTable returns an error if the header of an AMD certificate table declares an entry that
+// does not lie within the table, or entries that together are larger than the table. The table is
+// untrusted input: the decoder adds an entry's offset and length in 32 bits, so a sum that wraps
+// would pass its range check, and it copies every entry, so entries that all name the same bytes
+// would multiply the table's size.
+func CheckCertTable(table []byte) error {
+	var total uint64
+	for i := 0; len(table) != 0; i++ {
+		start := i * abi.CertTableEntrySize
+		if len(table)-start < abi.CertTableEntrySize {
+			return fmt.Errorf("cert table header entry %d is truncated", i)
+		}
+		entry := table[start : start+abi.CertTableEntrySize]
+		offset := binary.LittleEndian.Uint32(entry[16:20])
+		length := binary.LittleEndian.Uint32(entry[20:24])
+		if offset == 0 && length == 0 && [16]byte(entry[:16]) == [16]byte{} {
+			return nil
+		}
+		if uint64(offset)+uint64(length) > uint64(len(table)) {
+			return fmt.Errorf("cert table entry %d specifies a byte range outside the table (size %d): offset=%d, length=%d",
+				i, len(table), offset, length)
+		}
+		if total += uint64(length); total > uint64(len(table)) {
+			return fmt.Errorf("cert table entries up to %d are %d bytes together, more than the table (size %d)", i, total, len(table))
+		}
+	}
+	return nil
+}
+
 // FromCertTable returns the contents of the certificate table entry for the GCE UEFI endorsement.
 func FromCertTable(table []byte) ([]byte, error) {
+	if err := CheckCertTable(table); err != nil {
+		return nil, err
+	}
 	t := new(abi.CertTable)
 	if err := t.Unmarshal(table); err != nil {
 		return nil, err
